@@ -6,6 +6,7 @@ package main
 // Built with -race the same driver exposes unsynchronized accesses in the pipelines.
 
 import (
+	"testing/iotest"
 	"bytes"
 	"context"
 	"flag"
@@ -43,6 +44,9 @@ type jitterPool struct {
 	lake.Pool
 	rng *rand.Rand
 	mu  sync.Mutex
+	// dataWithEOF: the last bytes of a file are returned TOGETHER with io.EOF (n > 0, err == io.EOF), as the
+	// io.Reader contract allows and as decompressing / network readers do
+	dataWithEOF bool
 }
 
 type jitterReader struct {
@@ -68,6 +72,9 @@ func (p *jitterPool) GetReader(i int64) (io.Reader, error) {
 	r, err := p.Pool.GetReader(i)
 	if err != nil {
 		return nil, err
+	}
+	if p.dataWithEOF {
+		r = iotest.DataErrReader(r)
 	}
 	return &jitterReader{r: r, p: p}, nil
 }
@@ -132,7 +139,7 @@ func cmdC15(args []string) error {
 			line.Procs = append(line.Procs, procs)
 			var pool lake.Pool = fspool.New(sourceContainer, newDir)
 			if r > 0 {
-				pool = &jitterPool{Pool: pool, rng: rand.New(rand.NewSource(int64(k*1000+r) + envSeed()))}
+				pool = &jitterPool{Pool: pool, rng: rand.New(rand.NewSource(int64(k*1000+r) + envSeed())), dataWithEOF: r%2 == 1}
 			}
 			dctx := &pwr.DiffContext{Compression: compressionOf(c.a, c.q), Consumer: nullConsumer(), SourceContainer: sourceContainer, Pool: pool,
 				TargetContainer: targetContainer, TargetSignature: targetSig}
